@@ -22,7 +22,7 @@ func RunRootsDirect(c *sim.Ctx) {
 	choices := []int{0, 1, 2, 3, 5, 100}
 	cc := cacheCfg{rootsNum: uint(choices[knob("roots_num", 0, 5)]), rootsFrames: choices[knob("roots_frames", 0, 5)], fcPairs: 16, hbSize: 64, laSize: 64}
 	nOps := knob("ops", 2, 40)
-	c.ProbeDecl("multi_frame_root", "query_of_cached_frame_after_registration", "epoch_switch_with_roots", "fork_roots_in_one_slot", "reset_to_the_same_epoch")
+	c.ProbeDecl("multi_frame_root", "query_of_cached_frame_after_registration", "epoch_switch_with_roots", "fork_roots_in_one_slot", "reset_to_the_same_epoch", "frame_with_more_than_100_roots")
 
 	dbs := newDBs()
 	var critErr error
@@ -58,6 +58,10 @@ func RunRootsDirect(c *sim.Ctx) {
 	gen := func() (sim.Op, bool) {
 		if len(c.Trace.Ops) >= nOps {
 			return sim.Op{}, false
+		}
+		if c.Chance("many_roots", 25) {
+			// more than a hundred roots in one frame (many validators or many forks), registered in one go
+			return sim.Op{K: "addmany", A: []int64{int64(c.Int("frame", 1, 6)), int64(101 + c.Pick("more", 40))}}, true
 		}
 		switch c.PickW("op", []int{10, 10, 1}) {
 		case 0:
@@ -132,6 +136,32 @@ func RunRootsDirect(c *sim.Ctx) {
 			for f := spf + 1; f <= fr; f++ {
 				check(f, "after registration")
 			}
+		case "addmany":
+			if len(op.A) < 2 {
+				continue
+			}
+			fr, k := uint32(op.A[0]), int(op.A[1])
+			if fr < 1 || k > 200 {
+				continue
+			}
+			for j := 0; j < k; j++ {
+				nEv++
+				creator := uint32(1 + j%4)
+				me := &dag.MutableBaseEvent{}
+				me.SetEpoch(idx.Epoch(epoch))
+				me.SetSeq(idx.Event(nEv))
+				me.SetCreator(idx.ValidatorID(creator))
+				me.SetLamport(idx.Lamport(nEv))
+				me.SetFrame(idx.Frame(fr))
+				var rid [24]byte
+				rid[0], rid[1], rid[2] = byte(nEv>>8), byte(nEv), 0x34
+				ev := me.Build(rid)
+				guard("AddRoot", func() { store.AddRoot(idx.Frame(fr-1), ev) })
+				id := ev.ID()
+				model[fr] = append(model[fr], fmt.Sprintf("%x/f%d/v%d", id[8:12], fr, creator))
+			}
+			c.Probe("frame_with_more_than_100_roots")
+			check(fr, "after registering many roots")
 		case "query":
 			check(uint32(op.A[0]), "query")
 		case "reset":
